@@ -176,13 +176,22 @@ theorem f128_as_val (m a : ℤ) (hm : Mult m) (ha : fits128 a) :
     have k128 : ρ / 2 ^ 128 ≤ ρ / 2 := by
       apply div_le_div_of_nonneg_left (le_of_lt hρ0) (by norm_num) (by norm_num)
     have ylo : (2 : ℚ) ^ (-1022 : ℤ) ≤ y := by
-      have : (2 : ℚ) ^ (-1022 : ℤ) ≤ (2 : ℚ) ^ (-54 : ℤ) / 2 := by norm_num
+      have h55 : (2 : ℚ) ^ (-55 : ℤ) = (2 : ℚ) ^ (-54 : ℤ) / 2 := by
+        rw [show (-55 : ℤ) = -54 + -1 by norm_num, zp_add]; norm_num
+      have : (2 : ℚ) ^ (-1022 : ℤ) ≤ (2 : ℚ) ^ (-54 : ℤ) / 2 := by
+        rw [← h55]; exact zp_le (by norm_num)
+      generalize (2 : ℚ) ^ (-1022 : ℤ) = c1 at *
+      generalize (2 : ℚ) ^ (-54 : ℤ) = c2 at *
+      generalize ρ / 2 ^ 128 = u at *
       linarith
     have yhi : y < (2 : ℚ) ^ (1023 : ℤ) := by
       have : (2 : ℚ) ^ (127 : ℕ) * 2 < (2 : ℚ) ^ (1023 : ℤ) := by
         have := zp_lt_iff.mpr (show (128 : ℤ) < 1023 by norm_num)
         have e : (2 : ℚ) ^ (128 : ℤ) = (2 : ℚ) ^ (127 : ℕ) * 2 := by norm_num
         rw [e] at this; exact this
+      generalize (2 : ℚ) ^ (1023 : ℤ) = c1 at *
+      generalize (2 : ℚ) ^ (127 : ℕ) = c2 at *
+      generalize ρ / 2 ^ 128 = u at *
       linarith
     have hypos : 0 < y := lt_of_lt_of_le (zp_pos _) ylo
     have hNpos : 0 < num Q E := by
@@ -202,9 +211,358 @@ theorem f128_as_val (m a : ℤ) (hm : Mult m) (ha : fits128 a) :
       have h53 : y / 2 ^ 53 ≤ (ρ + ρ / 2 ^ 128) / 2 ^ 53 :=
         div_le_div_of_nonneg_right this (by norm_num)
       have e2 : (ρ + ρ / 2 ^ 128) / 2 ^ 53 = ρ / 2 ^ 53 + ρ / 2 ^ 181 := by
-        field_simp; norm_num
+        field_simp
       linarith
     rw [abs_le]
-    constructor <;> [skip; skip] <;> nlinarith [e1, y1, y2, z1, z2]
+    constructor <;> linarith
+
+/-! ## f128.From -/
+
+/-- with `mult = 10^places`, `FromString` on the `places+1`-digit text drops the last digit -/
+theorem parseDigits_eq (places n1 : ℕ) :
+    F128.parseDigits ((10 : ℤ) ^ places) places n1 = ((n1 / 10 : ℕ) : ℤ) := by
+  unfold F128.parseDigits
+  simp only []
+  have hdm := Nat.div_add_mod n1 (10 ^ (places + 1))
+  generalize n1 / 10 ^ (places + 1) = ip at *
+  generalize hf : n1 % 10 ^ (places + 1) = f1 at *
+  have e10 : 10 ^ (places + 1) * ip = 10 * (10 ^ places * ip) := by rw [Nat.pow_succ]; ring
+  have : n1 / 10 = 10 ^ places * ip + f1 / 10 := by
+    rw [← hdm, e10, Nat.mul_add_div (by norm_num)]
+  rw [this]
+  push_cast
+  ring
+
+/-- the digits of `Text('f', places+1)`: the scaled magnitude rounded to the nearest integer -/
+theorem textDigits_val (places m : ℕ) (e : ℤ) :
+    |((F128.textDigits places m e : ℕ) : ℚ) - (m : ℚ) * (2 : ℚ) ^ e * 10 ^ (places + 1)| ≤ 1 / 2 := by
+  unfold F128.textDigits
+  simp only []
+  have hd := den_pos e
+  generalize hA : num m e * 10 ^ (places + 1) = A
+  obtain ⟨_, g⟩ := roundQ_val (A / den e) (A % den e) (den e) hd (Nat.mod_lt _ hd)
+  have hdm := Nat.div_add_mod A (den e)
+  have hdq : ((den e : ℕ) : ℚ) ≠ 0 := by exact_mod_cast (ne_of_gt hd)
+  have hq : ((A / den e : ℕ) : ℚ) + ((A % den e : ℕ) : ℚ) / ((den e : ℕ) : ℚ) = (A : ℚ) / ((den e : ℕ) : ℚ) := by
+    rw [eq_div_iff hdq, add_mul, div_mul_cancel₀ _ hdq]
+    have : (A : ℚ) = ((den e : ℕ) : ℚ) * ((A / den e : ℕ) : ℚ) + ((A % den e : ℕ) : ℚ) := by
+      exact_mod_cast hdm.symm
+    linarith
+  rw [hq] at g
+  have hv : (A : ℚ) / ((den e : ℕ) : ℚ) = (m : ℚ) * (2 : ℚ) ^ e * 10 ^ (places + 1) := by
+    rw [← num_den_val, ← hA]; push_cast; ring
+  rw [hv] at g
+  exact g
+
+/-- `f128.From` of a finite float, before saturation: less than one unit of the last place from the value
+    (at most 19/20 of it) -/
+theorem f128_from_mag (places m : ℕ) (e : ℤ) :
+    |((F128.textDigits places m e / 10 : ℕ) : ℚ) - (m : ℚ) * (2 : ℚ) ^ e * 10 ^ places| ≤ 19 / 20 := by
+  have g := textDigits_val places m e
+  generalize F128.textDigits places m e = n1 at *
+  have hdm := Nat.div_add_mod n1 10
+  have hlt := Nat.mod_lt n1 (show 0 < 10 by norm_num)
+  have h1 : (n1 : ℚ) = 10 * ((n1 / 10 : ℕ) : ℚ) + ((n1 % 10 : ℕ) : ℚ) := by exact_mod_cast hdm.symm
+  have h2 : ((n1 % 10 : ℕ) : ℚ) ≤ 9 := by
+    have : n1 % 10 ≤ 9 := by omega
+    exact_mod_cast this
+  have h3 : (0 : ℚ) ≤ ((n1 % 10 : ℕ) : ℚ) := by positivity
+  have e10 : (m : ℚ) * (2 : ℚ) ^ e * 10 ^ (places + 1) = 10 * ((m : ℚ) * (2 : ℚ) ^ e * 10 ^ places) := by
+    rw [pow_succ]; ring
+  rw [e10] at g
+  obtain ⟨g1, g2⟩ := abs_le.mp g
+  rw [abs_le]
+  constructor <;> linarith
+
+theorem f128_from_val (p : ℕ × ℤ) (hp : p ∈ Facts.fixedConfigs) (x : Flt) (r : ℤ)
+    (h : F128.fromFloat p.2 p.1 x = some r) (h1 : F128.minRaw < r) (h2 : r < F128.maxRaw) :
+    |value p.2 r - fval x| ≤ 19 / 20 / (p.2 : ℚ) := by
+  have htab : ∀ q ∈ Facts.fixedConfigs, q.2 = (10 : ℤ) ^ q.1 := by decide
+  have hm := htab p hp
+  have hpos : (0 : ℚ) < ((10 : ℤ) ^ p.1 : ℤ) := by positivity
+  rw [hm] at h ⊢
+  generalize p.1 = D at *
+  cases x with
+  | nan => simp [F128.fromFloat] at h
+  | inf s =>
+    simp only [F128.fromFloat, Option.some.injEq] at h
+    subst h
+    simp only [fval, value]
+    simp only [Int.cast_zero, zero_div, sub_zero, abs_zero]
+    positivity
+  | fin s m e =>
+    simp only [F128.fromFloat, Option.some.injEq] at h
+    rw [parseDigits_eq] at h
+    have g := f128_from_mag D m e
+    generalize F128.textDigits D m e / 10 = v at *
+    -- the result was not saturated
+    have hr : r = if s then -(v : ℤ) else (v : ℤ) := by
+      generalize (if s = true then -(v : ℤ) else (v : ℤ)) = w at h ⊢
+      unfold F128.clamp at h
+      unfold F128.minRaw at h1 h
+      unfold F128.maxRaw at h2 h
+      split at h
+      · omega
+      · split at h
+        · omega
+        · exact h.symm
+    have hrq : (r : ℚ) = sgn s * (v : ℚ) := by
+      rw [hr]; unfold sgn; cases s <;> simp
+    unfold value fval
+    rw [hrq]
+    have hne : (((10 : ℤ) ^ D : ℤ) : ℚ) ≠ 0 := ne_of_gt hpos
+    have e1 : sgn s * (v : ℚ) / (((10 : ℤ) ^ D : ℤ) : ℚ) - sgn s * ((m : ℚ) * (2 : ℚ) ^ e)
+        = sgn s * (((v : ℚ) - (m : ℚ) * (2 : ℚ) ^ e * 10 ^ D) / (((10 : ℤ) ^ D : ℤ) : ℚ)) := by
+      field_simp; push_cast; ring
+    rw [e1, abs_sgn_mul, abs_div, abs_of_pos hpos]
+    exact div_le_div_of_nonneg_right g (le_of_lt hpos)
+
+/-! ## f64.From -/
+
+/-- `float64(Multiplier[T]())` is exact in every configuration (`10^16 = 5·10^15 · 2`) -/
+theorem multF_val (m : ℤ) (hm : Mult m) :
+    ∃ mm me, F64.multF m = .fin false mm me ∧ (mm : ℚ) * (2 : ℚ) ^ me = (m : ℚ) ∧ mm ≠ 0 := by
+  have hm0 := hm.pos
+  have hcases : ∀ p ∈ Facts.fixedConfigs, p.2 < 9007199254740992 ∨ p.2 = 10000000000000000 := by decide
+  obtain ⟨p, hp, rfl⟩ := hm
+  unfold F64.multF ofInt
+  have hb : (p.2 == 0) = false := by simp; omega
+  have hn : decide (p.2 < 0) = false := by simp; omega
+  rw [hb]
+  simp only [Bool.false_eq_true, if_false]
+  rw [hn]
+  have hcast : (p.2 : ℚ) = ((p.2.natAbs : ℕ) : ℚ) := by
+    rw [Nat.cast_natAbs, abs_of_pos hm0]
+  rw [hcast]
+  rcases hcases p hp with h | h
+  · have hu : p.2.natAbs < 2 ^ 53 := by omega
+    have hu0 : 0 < p.2.natAbs := by omega
+    generalize p.2.natAbs = u at *
+    have hl : u.log2 < 53 := (Nat.log2_lt (by omega)).mpr hu
+    refine ⟨u * 2 ^ (52 - u.log2), (u.log2 : ℤ) - 52, ofNat_exact u hu0 hu, ?_, ?_⟩
+    · push_cast
+      have : (2 : ℚ) ^ (52 - u.log2) = (2 : ℚ) ^ (((52 - u.log2 : ℕ) : ℕ) : ℤ) := (zpow_natCast _ _).symm
+      rw [this, mul_assoc, ← zp_add]
+      have : (((52 - u.log2 : ℕ) : ℕ) : ℤ) + ((u.log2 : ℤ) - 52) = 0 := by omega
+      rw [this]; simp
+    · have := pow_pos' (52 - u.log2)
+      exact Nat.ne_of_gt (Nat.mul_pos hu0 this)
+  · have hu : p.2.natAbs = 10000000000000000 := by omega
+    rw [hu]
+    refine ⟨5000000000000000, 1, ?_, by norm_num, by norm_num⟩
+    unfold ofRat
+    rw [roundRatN_exact false 10000000000000000 1 5000000000000000 1 (by norm_num)
+      (by unfold Exact; norm_num) (by norm_num) (by norm_num) (by norm_num) (by norm_num)]
+    exact decode_encodeNormal false _ _ (by norm_num) (by norm_num) (by norm_num) (by norm_num)
+
+/-- truncating a rounded positive value: less than one unit from the exact value when the float has fraction bits,
+    and exactly the rounded value (relative error `2^-53`) when it is an integer -/
+theorem trunc_bound (m' : ℕ) (e' : ℤ) (ρ : ℚ) (hn : 2 ^ 52 ≤ m' ∨ e' = -1074)
+    (habs : |(m' : ℚ) * (2 : ℚ) ^ e' - ρ| ≤ (2 : ℚ) ^ e' / 2)
+    (hrel : (2 : ℚ) ^ (-1022 : ℤ) ≤ ρ → |(m' : ℚ) * (2 : ℚ) ^ e' - ρ| ≤ ρ / 2 ^ 53) :
+    |(((if e' ≥ 0 then m' * 2 ^ e'.toNat else m' / 2 ^ (-e').toNat : ℕ)) : ℚ) - ρ| < 1 ∨
+    |(((if e' ≥ 0 then m' * 2 ^ e'.toNat else m' / 2 ^ (-e').toNat : ℕ)) : ℚ) - ρ| ≤ ρ / 2 ^ 53 := by
+  obtain ⟨a1, a2⟩ := abs_le.mp habs
+  by_cases he : e' ≥ 0
+  · right
+    rw [if_pos he]
+    obtain ⟨n, rfl⟩ := Int.eq_ofNat_of_zero_le he
+    simp only [Int.toNat_natCast]
+    have hm52 : 2 ^ 52 ≤ m' := by rcases hn with h | h <;> omega
+    have hm52q : ((2 ^ 52 : ℕ) : ℚ) ≤ (m' : ℚ) := by exact_mod_cast hm52
+    have hcast : ((m' * 2 ^ n : ℕ) : ℚ) = (m' : ℚ) * (2 : ℚ) ^ (n : ℤ) := by rw [zp_nat]; push_cast; ring
+    rw [hcast]
+    apply hrel
+    -- ρ ≥ P - 2^n/2 ≥ 2^n·(2^52 - 1/2) ≥ 1
+    have h1 : (1 : ℚ) ≤ (2 : ℚ) ^ (n : ℤ) := by
+      have := zp_le (show (0 : ℤ) ≤ (n : ℤ) by omega); simpa using this
+    have hlow : (2 : ℚ) ^ (-1022 : ℤ) ≤ 1 := by
+      have := zp_le (show (-1022 : ℤ) ≤ 0 by norm_num); simpa using this
+    have hprod : ((2 ^ 52 : ℕ) : ℚ) * (2 : ℚ) ^ (n : ℤ) ≤ (m' : ℚ) * (2 : ℚ) ^ (n : ℤ) :=
+      mul_le_mul_of_nonneg_right hm52q (by linarith)
+    have k : ((2 ^ 52 : ℕ) : ℚ) = 4503599627370496 := by norm_num
+    rw [k] at hprod
+    generalize (2 : ℚ) ^ (-1022 : ℤ) = c at *
+    generalize (2 : ℚ) ^ (n : ℤ) = u at *
+    nlinarith
+  · left
+    rw [if_neg he]
+    obtain ⟨n, hn'⟩ : ∃ n : ℕ, e' = -(n : ℤ) := ⟨(-e').toNat, by omega⟩
+    subst hn'
+    simp only [neg_neg, Int.toNat_natCast]
+    have hn1 : 1 ≤ n := by omega
+    have hdm := Nat.div_add_mod m' (2 ^ n)
+    have hlt := Nat.mod_lt m' (pow_pos' n)
+    have hP : (0 : ℚ) < ((2 ^ n : ℕ) : ℚ) := by exact_mod_cast (pow_pos' n)
+    have h2n : (2 : ℚ) ≤ ((2 ^ n : ℕ) : ℚ) := by
+      have : 2 ^ 1 ≤ 2 ^ n := Nat.pow_le_pow_right (by norm_num) hn1
+      exact_mod_cast this
+    have hm : (m' : ℚ) = ((2 ^ n : ℕ) : ℚ) * ((m' / 2 ^ n : ℕ) : ℚ) + ((m' % 2 ^ n : ℕ) : ℚ) := by
+      exact_mod_cast hdm.symm
+    have hrem : ((m' % 2 ^ n : ℕ) : ℚ) ≤ ((2 ^ n : ℕ) : ℚ) - 1 := by
+      have : m' % 2 ^ n + 1 ≤ 2 ^ n := hlt
+      have : ((m' % 2 ^ n + 1 : ℕ) : ℚ) ≤ ((2 ^ n : ℕ) : ℚ) := by exact_mod_cast this
+      push_cast at this ⊢; linarith
+    have hrem0 : (0 : ℚ) ≤ ((m' % 2 ^ n : ℕ) : ℚ) := by positivity
+    have hu : (2 : ℚ) ^ (-(n : ℤ)) = 1 / ((2 ^ n : ℕ) : ℚ) := by rw [zpow_neg, zp_nat]; simp
+    rw [hu] at a1 a2
+    generalize ((2 ^ n : ℕ) : ℚ) = T at *
+    generalize ((m' / 2 ^ n : ℕ) : ℚ) = k at *
+    generalize ((m' % 2 ^ n : ℕ) : ℚ) = rem at *
+    rw [hm] at a1 a2
+    have hT : T ≠ 0 := ne_of_gt hP
+    have e1 : (T * k + rem) * (1 / T) = k + rem / T := by field_simp
+    rw [e1] at a1 a2
+    have r1 : rem / T ≤ 1 - 1 / T := by
+      rw [div_le_iff₀ hP]; field_simp; linarith
+    have r0 : 0 ≤ rem / T := by positivity
+    have t1 : 1 / T ≤ 1 / 2 := by
+      rw [div_le_div_iff₀ hP (by norm_num)]; linarith
+    have t0 : 0 < 1 / T := by positivity
+    rw [abs_lt]
+    constructor <;> linarith
+
+theorem sInt_cast (s : Bool) (k : ℕ) : ((sInt s k : ℤ) : ℚ) = sgn s * (k : ℚ) := by
+  unfold sInt sgn; cases s <;> simp
+
+/-- **the product of `From` is one rounding**: `x * float64(mult)` for a finite non-zero `x` either overflows (only
+    when `|x|·mult ≥ 2^1023`) or is a finite `m'·2^e'` of the same sign within half a unit `2^e'` of the exact product —
+    within `2^-53` of it (relative) in the normal range -/
+theorem mul_multF_val (m : ℤ) (hm : Mult m) (s : Bool) (mx : ℕ) (ex : ℤ) (hmx : mx ≠ 0) :
+    0 < (mx : ℚ) * (2 : ℚ) ^ ex * m ∧
+    ((GoSem.F64.mul (.fin s mx ex) (F64.multF m) = .inf s ∧ (2 : ℚ) ^ (1023 : ℤ) ≤ (mx : ℚ) * (2 : ℚ) ^ ex * m) ∨
+     ∃ m' e', GoSem.F64.mul (.fin s mx ex) (F64.multF m) = .fin s m' e' ∧ (2 ^ 52 ≤ m' ∨ e' = -1074) ∧
+      |(m' : ℚ) * (2 : ℚ) ^ e' - (mx : ℚ) * (2 : ℚ) ^ ex * m| ≤ (2 : ℚ) ^ e' / 2 ∧
+      ((2 : ℚ) ^ (-1022 : ℤ) ≤ (mx : ℚ) * (2 : ℚ) ^ ex * m →
+        |(m' : ℚ) * (2 : ℚ) ^ e' - (mx : ℚ) * (2 : ℚ) ^ ex * m| ≤ (mx : ℚ) * (2 : ℚ) ^ ex * m / 2 ^ 53)) := by
+  obtain ⟨mm, me, hmf, hmv, hmm0⟩ := multF_val m hm
+  have hmq : (0 : ℚ) < (m : ℚ) := by exact_mod_cast hm.pos
+  rw [hmf]
+  have hprod : GoSem.F64.mul (.fin s mx ex) (.fin false mm me)
+      = ofRat s (num mx ex * num mm me) (den ex * den me) := by
+    simp [GoSem.F64.mul, hmx, hmm0]
+  rw [hprod]
+  have hD : 0 < den ex * den me := Nat.mul_pos (den_pos _) (den_pos _)
+  have hratio : ((num mx ex * num mm me : ℕ) : ℚ) / ((den ex * den me : ℕ) : ℚ)
+      = (mx : ℚ) * (2 : ℚ) ^ ex * m := by
+    push_cast
+    rw [mul_div_mul_comm, num_den_val, num_den_val, hmv]
+  have hρpos : (0 : ℚ) < (mx : ℚ) * (2 : ℚ) ^ ex * m := by
+    have : (0 : ℚ) < (mx : ℚ) := by exact_mod_cast (Nat.pos_of_ne_zero hmx)
+    have := zp_pos ex
+    positivity
+  have hA : 0 < num mx ex * num mm me := by
+    rcases Nat.eq_zero_or_pos (num mx ex * num mm me) with h0 | h0
+    · rw [h0, Nat.cast_zero, zero_div] at hratio; linarith
+    · exact h0
+  refine ⟨hρpos, ?_⟩
+  unfold ofRat
+  rcases roundRatN_val s _ _ hA hD with ⟨hi, hbig⟩ | ⟨m', e', hf, _, _, hn, habs, hrel⟩
+  · rw [hratio] at hbig; exact Or.inl ⟨hi, hbig⟩
+  · rw [hratio] at habs hrel; exact Or.inr ⟨m', e', hf, hn, habs, hrel⟩
+
+theorem mul_multF_zero (m : ℤ) (hm : Mult m) (s : Bool) (ex : ℤ) :
+    GoSem.F64.mul (.fin s 0 ex) (F64.multF m) = .fin s 0 (-1074) := by
+  obtain ⟨mm, me, hmf, _, _⟩ := multF_val m hm
+  rw [hmf]; simp [GoSem.F64.mul]
+
+theorem truncInt_zero (s : Bool) : truncInt (.fin s 0 (-1074)) = 0 := by
+  simp only [truncInt]
+  rw [if_neg (by norm_num), Nat.zero_div]
+  unfold sInt; split <;> simp
+
+theorem toI64_zero (s : Bool) : toI64 (.fin s 0 (-1074)) = .ok 0 := by
+  unfold toI64; rw [truncInt_zero]; simp [isFinite]
+
+/-- **f64.From on a float**: whenever Go defines the conversion (`.ok r`), the raw result is less than one raw unit,
+    or at most `2^-53` (relative), from the exact product `x · mult` -/
+theorem f64_from_val (m : ℤ) (hm : Mult m) (x : Flt) (r : ℤ) (h : F64.fromFloat m x = .ok r) :
+    |(r : ℚ) - fval x * m| < 1 ∨ |(r : ℚ) - fval x * m| ≤ |fval x * m| / 2 ^ 53 := by
+  unfold F64.fromFloat at h
+  cases x with
+  | nan => simp [GoSem.F64.mul, toI64, isFinite] at h
+  | inf s =>
+    obtain ⟨mm, me, hmf, _, hmm0⟩ := multF_val m hm
+    rw [hmf] at h
+    simp [GoSem.F64.mul, toI64, isFinite, hmm0] at h
+  | fin s mx ex =>
+    by_cases hmx : mx = 0
+    · subst hmx
+      rw [mul_multF_zero m hm, toI64_zero] at h
+      injection h with h'
+      left; subst h'
+      simp [fval]
+    · obtain ⟨hρpos, ⟨hi, _⟩ | ⟨m', e', hf, hn, habs, hrel⟩⟩ := mul_multF_val m hm s mx ex hmx
+      · rw [hi] at h; simp [toI64, isFinite] at h
+      · rw [hf] at h
+        have hr : r = sInt s (if e' ≥ 0 then m' * 2 ^ e'.toNat else m' / 2 ^ (-e').toNat) := by
+          unfold toI64 at h
+          split at h
+          · injection h with h'; rw [← h']; rfl
+          · cases h
+        have hx : fval (.fin s mx ex) * m = sgn s * ((mx : ℚ) * (2 : ℚ) ^ ex * m) := by
+          unfold fval; ring
+        rw [hx, hr, sInt_cast, ← mul_sub, abs_sgn_mul, abs_sgn_mul, abs_of_pos hρpos]
+        exact trunc_bound m' e' _ hn habs hrel
+
+/-- **the domain contains every product up to 2^62**: if `|x|·mult ≤ 2^62` the conversion is defined -/
+theorem f64_from_defined (m : ℤ) (hm : Mult m) (s : Bool) (mx : ℕ) (ex : ℤ)
+    (hb : (mx : ℚ) * (2 : ℚ) ^ ex * m ≤ 2 ^ 62) : ∃ r, F64.fromFloat m (.fin s mx ex) = .ok r := by
+  unfold F64.fromFloat
+  by_cases hmx : mx = 0
+  · subst hmx
+    rw [mul_multF_zero m hm, toI64_zero]; exact ⟨0, rfl⟩
+  · obtain ⟨hρpos, ⟨_, hbig⟩ | ⟨m', e', hf, hn, habs, _⟩⟩ := mul_multF_val m hm s mx ex hmx
+    · exfalso
+      have : (2 : ℚ) ^ (62 : ℕ) < (2 : ℚ) ^ (1023 : ℤ) := by
+        exact_mod_cast (zp_lt_iff.mpr (show (62 : ℤ) < 1023 by norm_num))
+      generalize (2 : ℚ) ^ (1023 : ℤ) = c at *
+      linarith
+    · rw [hf]
+      generalize hρ : (mx : ℚ) * (2 : ℚ) ^ ex * m = ρ at *
+      obtain ⟨a1, a2⟩ := abs_le.mp habs
+      -- the truncated magnitude is below 2^63
+      have hk : (if e' ≥ 0 then m' * 2 ^ e'.toNat else m' / 2 ^ (-e').toNat) < 2 ^ 63 := by
+        by_cases he : e' ≥ 0
+        · rw [if_pos he]
+          obtain ⟨n, rfl⟩ := Int.eq_ofNat_of_zero_le he
+          simp only [Int.toNat_natCast]
+          have hm52 : 2 ^ 52 ≤ m' := by rcases hn with h | h <;> omega
+          have hm52q : (4503599627370496 : ℚ) ≤ (m' : ℚ) := by exact_mod_cast hm52
+          have hcast : ((m' * 2 ^ n : ℕ) : ℚ) = (m' : ℚ) * (2 : ℚ) ^ (n : ℤ) := by rw [zp_nat]; push_cast; ring
+          have hu := zp_pos (n : ℤ)
+          have : ((m' * 2 ^ n : ℕ) : ℚ) < ((2 ^ 63 : ℕ) : ℚ) := by
+            rw [hcast]; push_cast
+            generalize (2 : ℚ) ^ (n : ℤ) = u at *
+            nlinarith
+          exact_mod_cast this
+        · rw [if_neg he]
+          obtain ⟨n, hn'⟩ : ∃ n : ℕ, e' = -(n : ℤ) := ⟨(-e').toNat, by omega⟩
+          subst hn'
+          simp only [neg_neg, Int.toNat_natCast]
+          have hP : (0 : ℚ) < ((2 ^ n : ℕ) : ℚ) := by exact_mod_cast (pow_pos' n)
+          have h1 : (1 : ℚ) ≤ ((2 ^ n : ℕ) : ℚ) := by exact_mod_cast (pow_pos' n)
+          have hu : (2 : ℚ) ^ (-(n : ℤ)) = 1 / ((2 ^ n : ℕ) : ℚ) := by rw [zpow_neg, zp_nat]; simp
+          rw [hu] at a1 a2
+          have hle : ((m' / 2 ^ n : ℕ) : ℚ) ≤ (m' : ℚ) * (1 / ((2 ^ n : ℕ) : ℚ)) := by
+            rw [mul_one_div, le_div_iff₀ hP]
+            have := Nat.div_mul_le_self m' (2 ^ n)
+            exact_mod_cast this
+          have hinv : 1 / ((2 ^ n : ℕ) : ℚ) ≤ 1 := by rw [div_le_one hP]; exact h1
+          have : ((m' / 2 ^ n : ℕ) : ℚ) < ((2 ^ 63 : ℕ) : ℚ) := by
+            push_cast
+            generalize 1 / ((2 ^ n : ℕ) : ℚ) = u at *
+            generalize ((m' / 2 ^ n : ℕ) : ℚ) = k at *
+            linarith
+          exact_mod_cast this
+      refine ⟨sInt s (if e' ≥ 0 then m' * 2 ^ e'.toNat else m' / 2 ^ (-e').toNat), ?_⟩
+      have htr : truncInt (.fin s m' e') = sInt s (if e' ≥ 0 then m' * 2 ^ e'.toNat else m' / 2 ^ (-e').toNat) := rfl
+      unfold toI64
+      rw [htr]
+      generalize (if e' ≥ 0 then m' * 2 ^ e'.toNat else m' / 2 ^ (-e').toNat) = k at hk ⊢
+      have h1 : -(2 ^ 63 : ℤ) ≤ sInt s k := by unfold sInt; split <;> omega
+      have h2 : sInt s k < (2 ^ 63 : ℤ) := by unfold sInt; split <;> omega
+      simp only [isFinite, Bool.true_and, Bool.and_eq_true, decide_eq_true_eq]
+      rw [if_pos ⟨h1, h2⟩]
 
 end Fixed.FloatLemmas
